@@ -101,6 +101,22 @@ def option_vec(chk, prog):
         chk.ob("R3.vec", f, "Value::Array(v) -> elementwise from_json in order", bool(arr) and "iter" in str(arr[0]) and "collect" in str(arr[0]) and "rev" not in str(arr[0]), f"{arr}")
         oth = [val for keys, g, val, line, arm in rows if keys == [("rest",)]]
         chk.ob("R3.vec", f, "non-array -> Err", bool(oth) and "Err" in str(oth[0]), f"{oth}")
+    # every element, exactly once: between iter() and collect() only `map` (MIR, both directions)
+    ADAPT = r"Iterator::(filter|filter_map|skip|take|skip_while|take_while|step_by|rev|flat_map|flatten|chain|zip|scan|inspect|dedup|peekable|cycle|fuse|map_while|enumerate|map)$"
+    for rx_, meth in ((r"^<std::vec::Vec<T> as humphrey_json::traits::FromJson>$", "from_json"), (r"^<std::vec::Vec<T> as humphrey_json::traits::IntoJson>$", "to_json")):
+        for fb_ in prog.impl_fn(rx_, meth):
+            bb = prog.bodies[fb_]
+            ad = [t["callee"].rsplit("::", 1)[-1] for blk, t in bb.calls_to(ADAPT)]
+            chk.ob("R3.vec", fb_, "every element is converted exactly once: no dropping / reordering adaptor between iter() and collect()", ad in ([], ["map"]),
+                   f"adaptors: {ad}: elements are dropped, repeated or reordered (e.g. filtering nulls shortens a Vec<Option<T>>)")
+            for blk, t in bb.calls_to(r"Iterator::map$"):
+                dd = core.describe(prog, bb, t["args"][1])
+                cl = [y[1] for y in core.desc_nodes(dd) if y[0] == "closure"] if hasattr(core, "desc_nodes") else []
+                ok_c = False
+                for c in prog.closures_of(fb_):
+                    if c.calls_to(r"(FromJson|IntoJson)::(from_json|to_json)$"):
+                        ok_c = True
+                chk.ob("R3.vec", fb_, f"the map closure calls {meth} on the element", ok_c, "")
     fs = prog.impl_fn(r"^<std::vec::Vec<T> as humphrey_json::traits::IntoJson>$", "to_json")
     chk.floor("IntoJson for Vec<T>", len(fs), 1)
     if fs:
